@@ -673,6 +673,52 @@ func c12OutcomeVerified(w *World, fi *FnInfo, at ssa.Instruction, O ssa.Value, d
 			}
 		}
 	}
+	// O was produced by a module helper (result 0 of its call): every exit of the helper that agrees with what this function
+	// knows about the call's other results (error nil, another result non-nil) hands back an outcome that is verified there
+	if ex, ok := O.(*ssa.Extract); ok && ex.Index == 0 && depth < 4 {
+		if call, ok := ex.Tuple.(*ssa.Call); ok {
+			if h := staticCallee(call); h != nil && h.Blocks != nil && w.IsProductFn(h) {
+				hi := w.Info(h)
+				cd := desc(call)
+				n := h.Signature.Results().Len()
+				okAll, nRet := true, 0
+				for _, hb := range h.Blocks {
+					r, isRet := blockTerm(hb).(*ssa.Return)
+					if !isRet {
+						continue
+					}
+					// does the caller's knowledge exclude this exit?
+					excluded := false
+					for k := 1; k < n; k++ {
+						rk := r.Results[k]
+						kd := fmt.Sprintf("%s#%d", cd, k)
+						if isErrorType(rk.Type()) && k == n-1 {
+							kd = descTailErr(call)
+						}
+						if labelHas(g, "EQ("+kd+",nil)") && hi.nonNil(rk, hb) {
+							excluded = true
+						}
+						if labelHas(g, "NE("+kd+",nil)") && isNilConst(rk) {
+							excluded = true
+						}
+						if bv, isB := boolConst(rk); isB && (bv && labelHas(g, "F("+kd+")") || !bv && labelHas(g, "T("+kd+")")) {
+							excluded = true
+						}
+					}
+					if excluded {
+						continue
+					}
+					nRet++
+					if ok, _ := c12OutcomeVerified(w, hi, r, r.Results[0], depth+1); !ok {
+						okAll = false
+					}
+				}
+				if okAll && nRet > 0 {
+					return true, ""
+				}
+			}
+		}
+	}
 	// O is a parameter of an unexported function: all call sites must satisfy the condition
 	if p, ok := O.(*ssa.Parameter); ok && depth < 4 && !fi.Fn.Object().Exported() {
 		idx := -1
@@ -1023,6 +1069,41 @@ func c12Consistency(c *Ctx) {
 				}
 			}
 		}
+		// … or produced, together with an error (last result), by a module helper every exit of which hands back the same fresh
+		// outcome consistently with that error (checked on the helper by the very rules below)
+		var prodCall *ssa.Call
+		var prodErr ssa.Value
+		if O == nil {
+			for _, b := range fn.Blocks {
+				for _, in := range b.Instrs {
+					call, ok := in.(*ssa.Call)
+					if !ok {
+						continue
+					}
+					g := staticCallee(call)
+					if g == nil || g.Blocks == nil || !w.IsProductFn(g) {
+						continue
+					}
+					res := g.Signature.Results()
+					if res.Len() < 2 || namedOf(res.At(0).Type()) != "ngo.VerificationOutcome" || !isErrorType(res.At(res.Len()-1).Type()) {
+						continue
+					}
+					if ok, _ := c12ProducerConsistent(w, g); !ok {
+						continue
+					}
+					for _, r := range *call.Referrers() {
+						if e, ok := r.(*ssa.Extract); ok {
+							if e.Index == 0 {
+								O, oBlock, prodCall = e, b, call
+							}
+							if e.Index == res.Len()-1 {
+								prodErr = e
+							}
+						}
+					}
+				}
+			}
+		}
 		if O == nil {
 			c.Unk("consistency/"+fnName(fn), "anchor: the outcome allocation", w.FnPos(fn), "not found")
 			continue
@@ -1062,6 +1143,21 @@ func c12Consistency(c *Ctx) {
 				continue
 			}
 			e := r.Results[1]
+			// the pair the producer handed back, forwarded untouched (no store of this function can precede)
+			if prodCall != nil && prodErr != nil && e == prodErr {
+				bad := false
+				for _, sb := range storeBlocks {
+					if sb == b || fi.reachHit([]state{{sb.Index, 0, -1}}, nil, map[int]bool{b.Index: true}) {
+						bad = true
+					}
+				}
+				c.Check(!bad, key, rule+" (the pair a consistent producer handed back, forwarded)", w.InstrPos(r), "the producer's error is returned although this function stored another error into the outcome")
+				continue
+			}
+			if prodCall != nil && !labelHas(fi.GuardsOf(r), "EQ("+descTailErr(prodCall)+",nil)") {
+				c.Bad(key, rule, w.InstrPos(r), "the exit does not know that the producer of the outcome reported no error (its error may be recorded in the outcome)")
+				continue
+			}
 			switch {
 			case isNilConst(e):
 				bad := false
@@ -1085,6 +1181,14 @@ func c12Consistency(c *Ctx) {
 				}
 				// the value returned is the value just stored into outcome.Error (nil or not: the two always agree)
 				c.Check(okSt, key, rule, w.InstrPos(r), "a failure is returned without being recorded in outcome.Error")
+			}
+		}
+		if prodCall != nil {
+			// the exits of the producer were judged too
+			for _, hb := range staticCallee(prodCall).Blocks {
+				if _, ok := blockTerm(hb).(*ssa.Return); ok {
+					k++
+				}
 			}
 		}
 		if k < 3 {
@@ -1344,6 +1448,68 @@ func c12PoolGet(w *World, fn *ssa.Function, ta *ssa.TypeAssert) bool {
 		}
 	}
 	return true
+}
+
+// c12ProducerConsistent: g returns (outcome, …, error); every exit returns the same fresh outcome allocation A, and
+// (A.Error, error) agree on it: nil only where no store to A.Error reaches, otherwise the value just stored or A.Error itself.
+func c12ProducerConsistent(w *World, g *ssa.Function) (bool, string) {
+	gi := w.Info(g)
+	var A *ssa.Alloc
+	n := g.Signature.Results().Len()
+	for _, b := range g.Blocks {
+		r, ok := blockTerm(b).(*ssa.Return)
+		if !ok {
+			continue
+		}
+		al, ok := canonPtr(r.Results[0]).(*ssa.Alloc)
+		if !ok || !al.Heap || (A != nil && al != A) {
+			return false, "the helper does not hand back one fresh outcome on every exit"
+		}
+		A = al
+	}
+	if A == nil {
+		return false, ""
+	}
+	isA := func(v ssa.Value) bool { return canonPtr(v) == ssa.Value(A) }
+	var storeBlocks []*ssa.BasicBlock
+	for _, b := range g.Blocks {
+		for _, in := range b.Instrs {
+			if st, ok := in.(*ssa.Store); ok {
+				if fa, ok := st.Addr.(*ssa.FieldAddr); ok && isA(fa.X) && fieldName(A.Type(), fa.Field) == "Error" {
+					storeBlocks = append(storeBlocks, b)
+				}
+			}
+		}
+	}
+	for _, b := range g.Blocks {
+		r, ok := blockTerm(b).(*ssa.Return)
+		if !ok {
+			continue
+		}
+		e := r.Results[n-1]
+		switch {
+		case isNilConst(e):
+			for _, sb := range storeBlocks {
+				if sb == b || gi.reachHit([]state{{sb.Index, 0, -1}}, nil, map[int]bool{b.Index: true}) {
+					return false, "nil is returned after a store to the outcome's Error"
+				}
+			}
+		case gi.cellOfLoad(e) >= 0 && isA(gi.cells[gi.cellOfLoad(e)].base):
+		default:
+			okSt := false
+			for _, in := range b.Instrs {
+				if st, ok := in.(*ssa.Store); ok {
+					if fa, ok := st.Addr.(*ssa.FieldAddr); ok && isA(fa.X) && fieldName(A.Type(), fa.Field) == "Error" && st.Val == e {
+						okSt = true
+					}
+				}
+			}
+			if !okSt {
+				return false, "an error is returned that was not recorded in the outcome"
+			}
+		}
+	}
+	return true, ""
 }
 
 // c12TailConsistent: `return g(…, O, …)` where every exit of the module function g returns the object it was handed in
